@@ -30,10 +30,13 @@ def make_trains(pattern, disorder=False):
     F.W = F.World(T0, T1)
     trains, ids = [], []
     for k, empty in enumerate(pattern):
-        sp = make_spikes(k, empty)
+        src = k
+        if isinstance(empty, str):            # 'same<j>': this train repeats the spike times of train j
+            src, empty = int(empty[4:]), False
+        sp = make_spikes(src, empty)
         tid = F.W.register('s%d' % k, sp)
         ids.append(tid)
-        given = make_spikes(k, empty, disorder)
+        given = make_spikes(src, empty, disorder)
         trains.append(pyspike.SpikeTrain(given, [T0, T1], is_sorted=not disorder) if not disorder else _raw_train(given))
     return trains, ids
 
@@ -316,8 +319,10 @@ def run_one(entry, form, pattern, sel_idx, kwc, compiled, disorder=False, reconc
     trains, ids = make_trains(pattern, disorder)
     sel = [ids[i] for i in sel_idx]
     AUTO_POOL['all'] = ids if form in ('indices', 'indices_np') else None
-    desc = dict(entry=entry, form=form, empty=[bool(x) for x in pattern], indices=list(sel_idx), kwargs=kwc,
+    desc = dict(entry=entry, form=form, empty=[x is True for x in pattern], indices=list(sel_idx), kwargs=kwc,
                 compiled=bool(compiled), disorder=disorder, reconcile_off=reconcile_off)
+    if any(isinstance(x, str) for x in pattern):
+        desc['repeats'] = [x if isinstance(x, str) else None for x in pattern]
     before = snapshot(trains)
     F.install(compiled)
     try:
@@ -399,6 +404,19 @@ def family(name, n, tier):
                 for compiled in (False, True):
                     for pat in patterns(n, 'all'):
                         sels = [tuple(range(n))] + ([s for s in index_lists(n, 2)] if n > 2 else [])
+                        for sel in sels:
+                            for form in forms_for(entry, len(sel), kwc):
+                                yield (entry, form, pat, sel, kwc, compiled)
+    elif name == 'repeated':       # C06: lists in which a train occurs more than once (identical spike times), also next to empty ones
+        pats = {2: [(False, 'same0')], 3: [(False, 'same0', False), (False, False, 'same1'), (False, 'same0', 'same0'), (True, False, 'same1'), (False, 'same0', True)],
+                4: [(False, 'same0', False, 'same2'), (False, False, 'same0', True), (False, 'same0', 'same0', 'same0')]}[n]
+        for entry in entries:
+            for kwc in ('default', 'max_tau_MRTS', 'interval'):
+                if not kw_allowed(entry, kwc):
+                    continue
+                for compiled in (False, True):
+                    for pat in pats:
+                        sels = [tuple(range(n))] + ([s_ for s_ in index_lists(n, 2)] if n > 2 else [])
                         for sel in sels:
                             for form in forms_for(entry, len(sel), kwc):
                                 yield (entry, form, pat, sel, kwc, compiled)
